@@ -842,6 +842,10 @@ func (c *Ctx) c14CyclicMixed(n int) {
 }
 
 func runC14(c *Ctx) error {
+	// handwritten programs (shapes that once slipped through), run by the Go toolchain
+	if err := c.runCorpus("C14-programs"); err != nil {
+		return err
+	}
 	c.c14TypeBitsWitness()
 	if c.Thorough() {
 		c.c14CyclicMixed(20000)
